@@ -206,6 +206,13 @@ Theorem C03_transpose_view_wf : forall A (v v' : tview A) req, view_wf v ->
   forall idx, v_get v' idx = v_get v (coords_by_name (v_shape v) req idx).
 Proof. exact @transpose_wf. Qed.
 
+(* ... and TensorMask views: every adaptor of the operand language preserves view_wf *)
+Theorem C03_mask_view_wf : forall A (v v' : tview A) ms, view_wf v -> v_mask v ms = Some v' ->
+  view_wf v' /\ names_of (v_shape v') = names_of (v_shape v) /\
+  lens_of (v_shape v') = map2 (fun (d : name * N) (m : N * N) => snd d - snd m) (v_shape v) ms /\
+  forall idx, v_get v' idx = v_get v (map_by_mask idx ms).
+Proof. exact @mask_wf. Qed.
+
 (* non-vacuity: a 3x2 tensor accessed in the transposed order is a well-formed 2x3 view whose
    view order (10 30 50 20 40 60) differs from its storage order (10 20 30 40 50 60); adding it
    to a 2x3 tensor pairs the elements in view order; the transposed view times the 3x2 tensor
@@ -270,3 +277,4 @@ Print Assumptions C03_rename_view_wf.
 Print Assumptions C03_range_view_wf.
 Print Assumptions C03_access_view_wf.
 Print Assumptions C03_transpose_view_wf.
+Print Assumptions C03_mask_view_wf.
